@@ -86,16 +86,28 @@ static void buf_add(char** b, size_t* len, size_t* cap, const char* s) {
   memcpy(*b + *len, s, n + 1);
   *len += n;
 }
+/* libuv's signal handler makes wrapped calls too: no signal may arrive while fi_mu is held */
+static void fi_lock(sigset_t* old) {
+  sigset_t all;
+  sigfillset(&all);
+  pthread_sigmask(SIG_BLOCK, &all, old);
+  pthread_mutex_lock(&fi_mu);
+}
+static void fi_unlock(const sigset_t* old) {
+  pthread_mutex_unlock(&fi_mu);
+  pthread_sigmask(SIG_SETMASK, old, NULL);
+}
 static void ev(const char* fmt, ...) {
   char t[512];
+  sigset_t old;
   va_list ap;
   va_start(ap, fmt);
   vsnprintf(t, sizeof t, fmt, ap);
   va_end(ap);
-  pthread_mutex_lock(&fi_mu);
+  fi_lock(&old);
   buf_add(&ev_buf, &ev_len, &ev_cap, t);
   buf_add(&ev_buf, &ev_len, &ev_cap, " ");
-  pthread_mutex_unlock(&fi_mu);
+  fi_unlock(&old);
 }
 
 static int fi_name_id(const char* name) {
@@ -106,12 +118,39 @@ static int fi_name_id(const char* name) {
   return 0;
 }
 
+static int fi_is_wakeup(int fd);    /* eventfd / signal pipes of the loop: defined by the harness */
+/* n = non-blocking, s = socket, w = internal wake-up channel */
+static void fd_attr(int fd, char* a) {
+  struct stat st; int fl, n = 0;
+  if (fd >= 0) {
+    fl = fcntl(fd, F_GETFL);
+    if (fl != -1 && (fl & O_NONBLOCK)) a[n++] = 'n';
+    if (fstat(fd, &st) == 0 && S_ISSOCK(st.st_mode)) a[n++] = 's';
+    if (fi_is_wakeup(fd)) a[n++] = 'w';
+  }
+  a[n] = 0;
+}
+/* can this call return this errno on this descriptor?  EAGAIN needs a non-blocking descriptor
+   (and on the loop's own wake-up channels a would-block write means "a wake-up is already
+   pending", which an injected answer cannot emulate); ENOBUFS needs a socket */
+static int fi_applicable(const char* name, int e, const char* attr, int fd) {
+  if (fd < 0) return 1;
+  if (e == EAGAIN) {
+    if (!strchr(attr, 'n')) return 0;
+    if (strchr(attr, 'w') && !strncmp(name, "write", 5)) return 0;
+  }
+  if (e == ENOBUFS && !strncmp(name, "write", 5) && !strchr(attr, 's')) return 0;
+  return 1;
+}
+
 /* attr: string of flags for the record ("n" non-blocking fd, "s" socket) */
-static int fi_hit(const char* name, const char* attr) {
+static int fi_hit(const char* name, int fd) {
   int cls, id, idx, e = 0, i;
+  char attr[6] = "";
+  sigset_t old;
   if (!fi_on) return 0;
   cls = pthread_equal(pthread_self(), fi_main) ? 0 : 1;
-  pthread_mutex_lock(&fi_mu);
+  fi_lock(&old);
   id = fi_name_id(name);
   idx = fi_cnt[cls][id]++;
   for (i = 0; i < fi_nfaults; i++) {
@@ -119,6 +158,10 @@ static int fi_hit(const char* name, const char* attr) {
     if (f->cls != cls || f->id != id) continue;
     if (f->k > 0) { if (idx >= f->idx && idx < f->idx + f->k) e = EINTR; }
     else if (idx == f->idx) e = f->err;
+  }
+  if (e || fi_record) {
+    fd_attr(fd, attr);
+    if (e && !fi_applicable(name, e, attr, fd)) e = 0;
   }
   if (fi_useseq && fi_armed && cls == 0 && (!fi_only || !strcmp(fi_only, name))) {
     e = fi_seqpos < fi_nseq ? fi_seq[fi_seqpos] : 0;
@@ -132,7 +175,7 @@ static int fi_hit(const char* name, const char* attr) {
     buf_add(&pt_buf, &pt_len, &pt_cap, t);
   }
   if (e) { fi_fired++; snprintf(fi_last, sizeof fi_last, "%c.%s#%d=%s", cls ? 'W' : 'M', name, idx, name_of_err(e)); }
-  pthread_mutex_unlock(&fi_mu);
+  fi_unlock(&old);
   return e;
 }
 
@@ -171,21 +214,21 @@ static int fi_parse(const char* plan) {
 static _Atomic long fi_live;
 static void* fi_malloc(size_t n) {
   void* p;
-  if (fi_hit("malloc", "")) { errno = ENOMEM; return NULL; }
+  if (fi_hit("malloc", -1)) { errno = ENOMEM; return NULL; }
   p = malloc(n);
   if (p) fi_live++;
   return p;
 }
 static void* fi_calloc(size_t a, size_t b) {
   void* p;
-  if (fi_hit("calloc", "")) { errno = ENOMEM; return NULL; }
+  if (fi_hit("calloc", -1)) { errno = ENOMEM; return NULL; }
   p = calloc(a, b);
   if (p) fi_live++;
   return p;
 }
 static void* fi_realloc(void* q, size_t n) {
   void* p;
-  if (fi_hit("realloc", "")) { errno = ENOMEM; return NULL; }
+  if (fi_hit("realloc", -1)) { errno = ENOMEM; return NULL; }
   p = realloc(q, n);
   if (p && !q) fi_live++;
   return p;
@@ -196,122 +239,108 @@ static void fi_free(void* p) {
 }
 
 /* ---- wrapped calls ------------------------------------------------------ */
-static int fi_is_wakeup(int fd);    /* eventfd / signal pipes of the loop: defined by the harness */
-static const char* fd_attr(int fd) {
-  /* only evaluated when recording: n = non-blocking, s = socket, w = internal wake-up channel */
-  static __thread char a[6];
-  struct stat st; int fl, n = 0;
-  if (!fi_record || !fi_on) return "";
-  fl = fcntl(fd, F_GETFL);
-  if (fl != -1 && (fl & O_NONBLOCK)) a[n++] = 'n';
-  if (fstat(fd, &st) == 0 && S_ISSOCK(st.st_mode)) a[n++] = 's';
-  if (fi_is_wakeup(fd)) a[n++] = 'w';
-  a[n] = 0;
-  return a;
-}
-
-#define FAIL_IF(name, attr, failret) do { int e_ = fi_hit(name, attr); if (e_) { errno = e_; return failret; } } while (0)
+#define FAIL_IF(name, fd, failret) do { int e_ = fi_hit(name, fd); if (e_) { errno = e_; return failret; } } while (0)
 
 int __real_socket(int, int, int);
-int __wrap_socket(int a, int b, int c) { FAIL_IF("socket", "", -1); return __real_socket(a, b, c); }
+int __wrap_socket(int a, int b, int c) { FAIL_IF("socket", -1, -1); return __real_socket(a, b, c); }
 int __real_socketpair(int, int, int, int*);
-int __wrap_socketpair(int a, int b, int c, int* d) { FAIL_IF("socketpair", "", -1); return __real_socketpair(a, b, c, d); }
+int __wrap_socketpair(int a, int b, int c, int* d) { FAIL_IF("socketpair", -1, -1); return __real_socketpair(a, b, c, d); }
 int __real_accept4(int, struct sockaddr*, socklen_t*, int);
-int __wrap_accept4(int a, struct sockaddr* b, socklen_t* c, int d) { FAIL_IF("accept4", fd_attr(a), -1); return __real_accept4(a, b, c, d); }
+int __wrap_accept4(int a, struct sockaddr* b, socklen_t* c, int d) { FAIL_IF("accept4", a, -1); return __real_accept4(a, b, c, d); }
 int __real_connect(int, const struct sockaddr*, socklen_t);
-int __wrap_connect(int a, const struct sockaddr* b, socklen_t c) { FAIL_IF("connect", fd_attr(a), -1); return __real_connect(a, b, c); }
+int __wrap_connect(int a, const struct sockaddr* b, socklen_t c) { FAIL_IF("connect", a, -1); return __real_connect(a, b, c); }
 int __real_pipe2(int*, int);
-int __wrap_pipe2(int* a, int b) { FAIL_IF("pipe2", "", -1); return __real_pipe2(a, b); }
+int __wrap_pipe2(int* a, int b) { FAIL_IF("pipe2", -1, -1); return __real_pipe2(a, b); }
 int __real_eventfd(unsigned, int);
-int __wrap_eventfd(unsigned a, int b) { FAIL_IF("eventfd", "", -1); return __real_eventfd(a, b); }
+int __wrap_eventfd(unsigned a, int b) { FAIL_IF("eventfd", -1, -1); return __real_eventfd(a, b); }
 int __real_epoll_create1(int);
-int __wrap_epoll_create1(int a) { FAIL_IF("epoll_create1", "", -1); return __real_epoll_create1(a); }
+int __wrap_epoll_create1(int a) { FAIL_IF("epoll_create1", -1, -1); return __real_epoll_create1(a); }
 int __real_epoll_ctl(int, int, int, struct epoll_event*);
 int __wrap_epoll_ctl(int a, int b, int c, struct epoll_event* d) {
-  FAIL_IF(b == EPOLL_CTL_ADD ? "epoll_ctl_add" : b == EPOLL_CTL_MOD ? "epoll_ctl_mod" : "epoll_ctl_del", "", -1);
+  FAIL_IF(b == EPOLL_CTL_ADD ? "epoll_ctl_add" : b == EPOLL_CTL_MOD ? "epoll_ctl_mod" : "epoll_ctl_del", -1, -1);
   return __real_epoll_ctl(a, b, c, d);
 }
 int __real_epoll_pwait(int, struct epoll_event*, int, int, const sigset_t*);
 int __wrap_epoll_pwait(int a, struct epoll_event* b, int c, int d, const sigset_t* e) {
-  FAIL_IF("epoll_pwait", "", -1);
+  FAIL_IF("epoll_pwait", -1, -1);
   return __real_epoll_pwait(a, b, c, d, e);
 }
 int __real_open64(const char*, int, ...);
 int __wrap_open64(const char* p, int fl, ...) {
   mode_t m = 0;
   if (fl & (O_CREAT | O_TMPFILE)) { va_list ap; va_start(ap, fl); m = va_arg(ap, mode_t); va_end(ap); }
-  FAIL_IF("open", "", -1);
+  FAIL_IF("open", -1, -1);
   return __real_open64(p, fl, m);
 }
 int __real_dup2(int, int);
-int __wrap_dup2(int a, int b) { FAIL_IF("dup2", "", -1); return __real_dup2(a, b); }
+int __wrap_dup2(int a, int b) { FAIL_IF("dup2", -1, -1); return __real_dup2(a, b); }
 int __real_dup3(int, int, int);
-int __wrap_dup3(int a, int b, int c) { FAIL_IF("dup3", "", -1); return __real_dup3(a, b, c); }
+int __wrap_dup3(int a, int b, int c) { FAIL_IF("dup3", -1, -1); return __real_dup3(a, b, c); }
 int __real_inotify_init1(int);
-int __wrap_inotify_init1(int a) { FAIL_IF("inotify_init1", "", -1); return __real_inotify_init1(a); }
+int __wrap_inotify_init1(int a) { FAIL_IF("inotify_init1", -1, -1); return __real_inotify_init1(a); }
 int __real_inotify_add_watch(int, const char*, uint32_t);
-int __wrap_inotify_add_watch(int a, const char* b, uint32_t c) { FAIL_IF("inotify_add_watch", "", -1); return __real_inotify_add_watch(a, b, c); }
+int __wrap_inotify_add_watch(int a, const char* b, uint32_t c) { FAIL_IF("inotify_add_watch", -1, -1); return __real_inotify_add_watch(a, b, c); }
 ssize_t __real_read(int, void*, size_t);
-ssize_t __wrap_read(int a, void* b, size_t c) { FAIL_IF("read", fd_attr(a), -1); return __real_read(a, b, c); }
+ssize_t __wrap_read(int a, void* b, size_t c) { FAIL_IF("read", a, -1); return __real_read(a, b, c); }
 ssize_t __real_readv(int, const struct iovec*, int);
-ssize_t __wrap_readv(int a, const struct iovec* b, int c) { FAIL_IF("readv", fd_attr(a), -1); return __real_readv(a, b, c); }
+ssize_t __wrap_readv(int a, const struct iovec* b, int c) { FAIL_IF("readv", a, -1); return __real_readv(a, b, c); }
 ssize_t __real_write(int, const void*, size_t);
-ssize_t __wrap_write(int a, const void* b, size_t c) { FAIL_IF("write", fd_attr(a), -1); return __real_write(a, b, c); }
+ssize_t __wrap_write(int a, const void* b, size_t c) { FAIL_IF("write", a, -1); return __real_write(a, b, c); }
 ssize_t __real_writev(int, const struct iovec*, int);
-ssize_t __wrap_writev(int a, const struct iovec* b, int c) { FAIL_IF("writev", fd_attr(a), -1); return __real_writev(a, b, c); }
+ssize_t __wrap_writev(int a, const struct iovec* b, int c) { FAIL_IF("writev", a, -1); return __real_writev(a, b, c); }
 ssize_t __real_sendmsg(int, const struct msghdr*, int);
-ssize_t __wrap_sendmsg(int a, const struct msghdr* b, int c) { FAIL_IF("sendmsg", fd_attr(a), -1); return __real_sendmsg(a, b, c); }
+ssize_t __wrap_sendmsg(int a, const struct msghdr* b, int c) { FAIL_IF("sendmsg", a, -1); return __real_sendmsg(a, b, c); }
 ssize_t __real_recvmsg(int, struct msghdr*, int);
-ssize_t __wrap_recvmsg(int a, struct msghdr* b, int c) { FAIL_IF("recvmsg", fd_attr(a), -1); return __real_recvmsg(a, b, c); }
+ssize_t __wrap_recvmsg(int a, struct msghdr* b, int c) { FAIL_IF("recvmsg", a, -1); return __real_recvmsg(a, b, c); }
 int __real_sendmmsg(int, struct mmsghdr*, unsigned, int);
-int __wrap_sendmmsg(int a, struct mmsghdr* b, unsigned c, int d) { FAIL_IF("sendmmsg", fd_attr(a), -1); return __real_sendmmsg(a, b, c, d); }
+int __wrap_sendmmsg(int a, struct mmsghdr* b, unsigned c, int d) { FAIL_IF("sendmmsg", a, -1); return __real_sendmmsg(a, b, c, d); }
 int __real_recvmmsg(int, struct mmsghdr*, unsigned, int, struct timespec*);
-int __wrap_recvmmsg(int a, struct mmsghdr* b, unsigned c, int d, struct timespec* e) { FAIL_IF("recvmmsg", fd_attr(a), -1); return __real_recvmmsg(a, b, c, d, e); }
+int __wrap_recvmmsg(int a, struct mmsghdr* b, unsigned c, int d, struct timespec* e) { FAIL_IF("recvmmsg", a, -1); return __real_recvmmsg(a, b, c, d, e); }
 ssize_t __real_pread64(int, void*, size_t, off_t);
-ssize_t __wrap_pread64(int a, void* b, size_t c, off_t d) { FAIL_IF("pread", "", -1); return __real_pread64(a, b, c, d); }
+ssize_t __wrap_pread64(int a, void* b, size_t c, off_t d) { FAIL_IF("pread", -1, -1); return __real_pread64(a, b, c, d); }
 ssize_t __real_pwrite64(int, const void*, size_t, off_t);
-ssize_t __wrap_pwrite64(int a, const void* b, size_t c, off_t d) { FAIL_IF("pwrite", "", -1); return __real_pwrite64(a, b, c, d); }
+ssize_t __wrap_pwrite64(int a, const void* b, size_t c, off_t d) { FAIL_IF("pwrite", -1, -1); return __real_pwrite64(a, b, c, d); }
 pid_t __real_fork(void);
 pid_t __wrap_fork(void) {
   pid_t p;
-  FAIL_IF("fork", "", -1);
+  FAIL_IF("fork", -1, -1);
   p = __real_fork();
   if (p == 0) fi_on = 0;   /* the grandchild must not touch the injection state */
   return p;
 }
 pid_t __real_waitpid(pid_t, int*, int);
-pid_t __wrap_waitpid(pid_t a, int* b, int c) { FAIL_IF("waitpid", "", -1); return __real_waitpid(a, b, c); }
+pid_t __wrap_waitpid(pid_t a, int* b, int c) { FAIL_IF("waitpid", -1, -1); return __real_waitpid(a, b, c); }
 int __real_ioctl(int, unsigned long, ...);
 int __wrap_ioctl(int a, unsigned long b, ...) {
   void* p; va_list ap; va_start(ap, b); p = va_arg(ap, void*); va_end(ap);
-  FAIL_IF("ioctl", "", -1);
+  FAIL_IF("ioctl", -1, -1);
   return __real_ioctl(a, b, p);
 }
 void* __real_mmap64(void*, size_t, int, int, int, off_t);
-void* __wrap_mmap64(void* a, size_t b, int c, int d, int e, off_t f) { FAIL_IF("mmap", "", MAP_FAILED); return __real_mmap64(a, b, c, d, e, f); }
+void* __wrap_mmap64(void* a, size_t b, int c, int d, int e, off_t f) { FAIL_IF("mmap", -1, MAP_FAILED); return __real_mmap64(a, b, c, d, e, f); }
 DIR* __real_opendir(const char*);
-DIR* __wrap_opendir(const char* a) { FAIL_IF("opendir", "", NULL); return __real_opendir(a); }
+DIR* __wrap_opendir(const char* a) { FAIL_IF("opendir", -1, NULL); return __real_opendir(a); }
 int __real_scandir64(const char*, struct dirent64***, int (*)(const struct dirent64*), int (*)(const struct dirent64**, const struct dirent64**));
 int __wrap_scandir64(const char* a, struct dirent64*** b, int (*c)(const struct dirent64*), int (*d)(const struct dirent64**, const struct dirent64**)) {
-  FAIL_IF("scandir", "", -1); return __real_scandir64(a, b, c, d);
+  FAIL_IF("scandir", -1, -1); return __real_scandir64(a, b, c, d);
 }
 int __real_getifaddrs(struct ifaddrs**);
-int __wrap_getifaddrs(struct ifaddrs** a) { FAIL_IF("getifaddrs", "", -1); return __real_getifaddrs(a); }
+int __wrap_getifaddrs(struct ifaddrs** a) { FAIL_IF("getifaddrs", -1, -1); return __real_getifaddrs(a); }
 FILE* __real_fdopen(int, const char*);
-FILE* __wrap_fdopen(int a, const char* b) { FAIL_IF("fdopen", "", NULL); return __real_fdopen(a, b); }
+FILE* __wrap_fdopen(int a, const char* b) { FAIL_IF("fdopen", -1, NULL); return __real_fdopen(a, b); }
 int __real_nanosleep(const struct timespec*, struct timespec*);
 int __wrap_nanosleep(const struct timespec* a, struct timespec* b) {
-  int e = fi_hit("nanosleep", "");
+  int e = fi_hit("nanosleep", -1);
   if (e) { if (b) *b = *a; errno = e; return -1; }
   return __real_nanosleep(a, b);
 }
 int __real_poll(struct pollfd*, nfds_t, int);
-int __wrap_poll(struct pollfd* a, nfds_t b, int c) { FAIL_IF("poll", "", -1); return __real_poll(a, b, c); }
+int __wrap_poll(struct pollfd* a, nfds_t b, int c) { FAIL_IF("poll", -1, -1); return __real_poll(a, b, c); }
 ssize_t __real_sendfile64(int, int, off_t*, size_t);
-ssize_t __wrap_sendfile64(int a, int b, off_t* c, size_t d) { FAIL_IF("sendfile", "", -1); return __real_sendfile64(a, b, c, d); }
+ssize_t __wrap_sendfile64(int a, int b, off_t* c, size_t d) { FAIL_IF("sendfile", -1, -1); return __real_sendfile64(a, b, c, d); }
 int __real_pthread_create(pthread_t*, const pthread_attr_t*, void* (*)(void*), void*);
 int __wrap_pthread_create(pthread_t* a, const pthread_attr_t* b, void* (*c)(void*), void* d) {
-  int e = fi_hit("pthread_create", "");
+  int e = fi_hit("pthread_create", -1);
   if (e) return e;
   return __real_pthread_create(a, b, c, d);
 }
@@ -334,7 +363,7 @@ long __wrap_syscall(long nr, ...) {
   default: break;
   }
   if (name) {
-    e = fi_hit(name, "");
+    e = fi_hit(name, -1);
     if (e) {
       /* Linux: close() interrupted by a signal has still closed the descriptor */
       if (nr == SYS_close) __real_syscall(nr, a[0]);
@@ -349,7 +378,8 @@ long __wrap_syscall(long nr, ...) {
 static void fi_flush_and_exit(int code);
 void __wrap_abort(void) {
   fi_on = 0;
-  ev("ABORT:pc=%p:api=%s:last=%s", __builtin_return_address(0), fi_api, fi_last[0] ? fi_last : "-");
+  /* abort() does not return: the return address may already belong to the next function */
+  ev("ABORT:pc=%p:api=%s:last=%s", (char*) __builtin_return_address(0) - 1, fi_api, fi_last[0] ? fi_last : "-");
   fi_flush_and_exit(77);
 }
 #endif
